@@ -5,6 +5,8 @@ import "io"
 type vpIt struct {
 	key []byte
 	err bool
+	rec any
+	bad bool
 }
 
 func vpKey(f *Fastq) []byte {
@@ -16,6 +18,10 @@ func vpKey(f *Fastq) []byte {
 func vpIter(api int, r io.Reader, fn func(vpIt) bool) {
 	for fq, err := range Reader(r) {
 		it := vpIt{err: err != nil}
+		it.bad = (fq == nil) == (err == nil)
+		if fq != nil {
+			it.rec = fq
+		}
 		if err == nil {
 			it.key = vpKey(fq)
 		}
@@ -36,6 +42,8 @@ func vpIterFile(api int, path string, fn func(vpIt) bool) {
 		}
 	}
 }
+
+func vpRawOK(c byte) bool { return true }
 
 func vpErrIsLast() bool { return true }
 
@@ -69,4 +77,35 @@ func vpWriteSample(tag string, shape int, w io.Writer) (error, int) {
 		}
 	}
 	return nil, total
+}
+
+func vpTemplate(k int) []byte {
+	// four lines of 0..2 symbolic bytes; k selects which line is longer
+	var out []byte
+	for l := 0; l < 4; l++ {
+		n := 1
+		if l == k {
+			n = 2
+		}
+		out = append(out, vpBytes("l"+vpDigit(l), n)...)
+		out = append(out, '\n')
+	}
+	return out
+}
+
+func vpFixedPoint(rec any) (bool, bool) {
+	f := rec.(*Fastq)
+	for _, fld := range [][]byte{f.Name, f.Sequence, f.Quals} {
+		for _, c := range fld {
+			if c == '\n' || c == '\r' {
+				return false, false
+			}
+		}
+	}
+	var w vpBuf
+	if f.Write(&w) != nil {
+		return true, false
+	}
+	got := vpCollect(vpOneShot(w.b), 3)
+	return true, len(got) == 1 && !got[0].err && string(got[0].name) == string(f.Name) && string(got[0].seq) == string(f.Sequence) && string(got[0].qual) == string(f.Quals)
 }
